@@ -116,13 +116,36 @@ def run(ctx, config='rel-all'):
                     gp = [arena.pointer_of(t) for t, _ in arena.success_payloads(I, type('R', (), {'ret': grown, 'ret_state': res.ret_state})())] if grown is not None else []
                     base_ptr = arena.pointer_of(base)
                     okf = rng[0] == 'agg' and rng[1].endswith('RangeFrom') and field_of(rng, 'start') == app('size', p(3)) and (base_ptr in gp or any(base_ptr == g for g in gp))
+            loop_fill = None
+            if not fills:
+                # the same fill written as `for byte in block[old..].iter_mut() { *byte = 0 }`
+                own = [e for e in res.events if len(e.stack) == 1]
+                im = [e for e in own if e.kind == 'call' and (e.callee or '').endswith('<impl [T]>::iter_mut')]
+                nx = [e for e in own if e.kind == 'call' and 'IterMut<' in (e.callee or '') and (e.callee or '').endswith('Iterator>::next')]
+                zs = [e for e in own if e.kind == 'store' and e.val == C(0) and nx and nx[0].ret in subterms(e.lv)]
+                src_ok = False
+                if len(im) == 1 and len(nx) == 1 and nx[0].args and nx[0].args[0][0] == 'addr' and nx[0].args[0][1][0] == 'local':
+                    itl = nx[0].args[0][1][2]
+                    # the iterator the loop advances is the one made from that slice (its value at loop entry)
+                    inits = [rec['init'].get(itl) for (bid, h), rec in res.loops.items() if bid == body['id'] and itl in rec['init']]
+                    src_ok = any(v is not None and im[0].ret in subterms(v) for v in inits)
+                if len(im) == 1 and len(nx) == 1 and len(zs) == 1 and src_ok:
+                    tgt = im[0].args[0]
+                    if tgt[0] == 'call' and tgt[1].endswith('index_mut') and arena.foreach_loop(I, res, body, nx[0], zs[0]):
+                        base, rng = tgt[2][0], tgt[2][1]
+                        grown = calls[0].ret if calls else None
+                        gp = [arena.pointer_of(t) for t, _ in arena.success_payloads(I, type('R', (), {'ret': grown, 'ret_state': res.ret_state})())] if grown is not None else []
+                        base_ptr = arena.pointer_of(base)
+                        okf = rng[0] == 'agg' and rng[1].endswith('RangeFrom') and field_of(rng, 'start') == app('size', p(3)) and base_ptr in gp
+                        loop_fill = nx[0]       # every successful path must run the loop (its header); an empty tail runs it zero times
             if okf:
                 ctx.ok('R6', 'grow_zeroed zero-fills exactly [size(old)..] of the grown block', 'fill(index_mut(block, size(old)..), 0)')
             else:
                 ctx.violation('R6', fn, 'zero-tail', 'grow_zeroed must fill exactly block[old_layout.size()..] with 0', body.get('span'))
             # ... on EVERY successful return: what is returned is the grown (and filled) block, and no path from the grow call
             # reaches a return around the fill except through the failure edge of grow's result
-            if calls and fills:
+            if calls and (fills or loop_fill is not None):
+                fill_block = fills[0].block if fills else loop_fill.block
                 grown = calls[0].ret
                 gp = [arena.pointer_of(t) for t, _ in arena.success_payloads(I, type('R', (), {'ret': grown, 'ret_state': res.ret_state})())]
                 stray = [t for t, _ in pays if arena.pointer_of(t) not in gp]
@@ -131,7 +154,7 @@ def run(ctx, config='rel-all'):
                 for e in res.events:
                     if e.kind == 'branch' and len(e.stack) == 1 and any(f[0] == 'is' and f[2] in ('Err', 'Break') for f in e.extra['added']):
                         err_edges.add((e.block, e.extra['target']))
-                around = set(g.returns()) & g.reach([calls[0].block], avoid_blocks=[fills[0].block], avoid_edges=err_edges)
+                around = set(g.returns()) & g.reach([calls[0].block], avoid_blocks=[fill_block], avoid_edges=err_edges)
                 early = [bi for bi in g.returns() if not g.can_reach(calls[0].block, bi)] if len(g.returns()) > 1 else []
                 if not stray and not around and not early:
                     ctx.ok('R6', 'grow_zeroed: every successful return hands out the block that grow returned, after the zero fill', 'payload identity + must-pass-through(fill) on the paths from the grow call')
@@ -333,12 +356,17 @@ def copy_discipline(ctx, A, roles, specs, RULE_NAME, floor):
             ncopy += 1
             fn = arena.short(arena.innermost(e))
             src, dst, n = e.args[0], e.args[1], e.args[2]
-            frame_fn = e.stack[-1][0]
+            # the frame of the inherent shrink / grow the copy belongs to: the innermost frame, or the function a private
+            # helper / closure it sits in was extracted from
+            stk = e.stack
+            while len(stk) > 1 and stk[-1][0] not in roles.values() and I.exclusive_helper(stk[-1][0], stk[-2][0]):
+                stk = stk[:-1]
+            frame_fn = stk[-1][0]
             if frame_fn == roles.get('Allocator::shrink'):
-                want_n = app('size', e.state.env.get((e.stack, 4)))
+                want_n = app('size', e.state.env.get((stk, 4)))
                 what = 'size(new)'
             elif frame_fn == roles.get('Allocator::grow'):
-                want_n = app('size', e.state.env.get((e.stack, 3)))
+                want_n = app('size', e.state.env.get((stk, 3)))
                 what = 'size(old)'
             else:
                 want_n, what = None, '?'
